@@ -22,8 +22,8 @@ INITIAL = {
 }
 ASSIGN = {
     'bool': [(True, '1'), (False, '0')],
-    'auto': [(1, '1'), (-1, 'auto')],
-    'int': [(7, '7'), (0, '0')],
+    'auto': [(1, '1'), (-1, 'auto'), ('0', '0'), (0, '0')],      # (text is converted like a number)
+    'int': [(7, '7'), (0, '0'), ('12', '12')],
     'float': [(1.5, '1.5')],
     'str': [('x y', 'x y'), ('J. "R" \\ P', 'J. "R" \\ P')],
 }
@@ -480,9 +480,29 @@ def run_script(kind, name, op, pre):
     return dict(viol=viol, obs=obs, log=log)
 
 
+def reassign_histories():
+    """two or three options changed, a save whose answer is outstanding, one of them changed again meanwhile, then the answer and
+    another save: deeper than the BFS bound for pairs, so these histories are listed explicitly (every ordered choice of options)"""
+    def first(n):
+        return ('assign', n, 0) if TYPES[n][1] in ASSIGN else ('assign-list', n)
+
+    def again(n):
+        if TYPES[n][1] in ASSIGN:
+            return ('assign', n, len(ASSIGN[TYPES[n][1]]) - 1)
+        return ('assign-list', n)
+    names = list(INITIAL)
+    out = []
+    for a, b in itertools.permutations(names, 2):
+        for re_ in (a, b):
+            out.append(((a, b), (first(a), first(b), ('save', 'held'), again(re_), ('save', 'ok'))))
+    for a, b, c in itertools.permutations(names[:2] + [n for n in names if TYPES[n][1] in ('lines',)][:1] + names[2:3], 3):
+        out.append(((a, b, c), (first(a), first(b), first(c), ('save', 'held'), again(b), ('save', 'ok'))))
+    return out
+
+
 def tasks(tier, seed):
     names = list(INITIAL)
-    out = [('script',)]
+    out = [('script',), ('reassign', False), ('reassign', True)]
     d1 = 4 if tier == 'quick' else 5
     d2 = 3 if tier == 'quick' else 4
     for n in names:
@@ -533,6 +553,18 @@ def run_task(param, acc):
             acc.execution(key=('script', name, 'foreign'), outcome='script/' + ('/'.join(sorted(set(v[0] for v in r['viol']))) or 'ok'), nontrivial=True, steps=4)
             for cl, ft, dt in r['viol']:
                 acc.violation('%s/%s' % (cl, ft), dt, dict(script='foreign-change', name=name, op=None, pre=None), cost=5)
+        return
+    if param[0] == 'reassign':
+        _ECHO[0] = param[1]
+        try:
+            for options, hist in reassign_histories():
+                for n in range(3, len(hist) + 1):
+                    r = Run(options, hist[:n])
+                    if r.viol or n == len(hist):
+                        handle(acc, options, hist[:n], r)
+                        break
+        finally:
+            _ECHO[0] = False
         return
     options, depth = param[:2]
     _ECHO[0] = len(param) > 2
